@@ -15,9 +15,15 @@ class C11(F.Spec):
             "1 ms..3 s at every phase of the 20 ms sampling timer on monostable (press/release trigger), bistable inputs; "
             "monitor: pulses shorter than 100 ms change nothing, a change stable for >= 140 ms is recognised exactly once "
             "within 120 ms (+ op granularity), each recognised actuation toggles the relay exactly once. "
-            "Non-trivial: a state change was recognised or a glitch ignored; distinct = (input type, widths class).")
+            "(c) action-trigger mode: bursts of 1-7 quick clicks, long presses, pauses and changes of the active set on monostable/"
+            "bistable buttons with and without a relay, default and changed hold/multi-click times: every recognised state change "
+            "(time-stamped by the board notification hook) is replayed through the Lean model, which must reproduce every trigger "
+            "and local relay action in order and max_clicks/relay connection after every set_active_triggers; monitors for clean "
+            "gestures (resolved once as min(N, highest multiplicity)) and holds; presses one counter period after init; contact "
+            "bounce. Non-trivial: a state change was recognised or a glitch ignored; distinct = (input type, widths class / triggers).")
     assumptions = ["an edge interrupt is delivered at every level change (the ~20 us irq-lock window during relay switching is "
-                   "not modelled)", "action-trigger/multi-click/hold gestures are covered by the repository's own tests only"]
+                   "not modelled)", "action-trigger mode: monostable and bistable buttons on relay boards (Model/InputAt); motion sensors and shutter buttons in action-trigger mode are not generated",
+                   "contact-bounce trains keep every level longer than the 20 ms sampling period (shorter blips are invisible to a sampled input)"]
 
     def cases(self, rng, tier):
         for i in range(60 if tier == "quick" else 800):
